@@ -905,12 +905,18 @@ func (x *Exec) unbox(payload Value, t types.Type) Value {
 		return B.UF("unbox_"+sortTag(ls[0].Sort), ls[0].Sort, p)
 	}
 	ts := make([]*smt.Term, len(ls))
+	rebox := false
 	for i, l := range ls {
 		if p.Op == "uf" && p.Name == "boxs_"+opaqueSortName(t) {
 			ts[i] = p.Args[i]
 		} else {
 			ts[i] = B.UF(fmt.Sprintf("unboxs_%s_%d", opaqueSortName(t), i), l.Sort, p)
+			rebox = true
 		}
+	}
+	if rebox {
+		// boxing the parts again gives the same data word (the value is immutable)
+		x.assumeGlobal(B.Eq(B.UF("boxs_"+opaqueSortName(t), RefS, ts...), p))
 	}
 	return x.fromLeaves(t, &ts)
 }
